@@ -65,7 +65,7 @@ type Case struct {
 	// TypesNamedPkg: the struct package is called `types` (like the framework package the generated file
 	// imports as well) and is addressed through the alias + import_path_overrides form of the README.
 	TypesNamedPkg bool
-	// MixedCasePkg: the struct package has a Go name with capitals (go_package = "<name>Api").
+	// MixedCasePkg: the struct package has a Go name with capitals (go_package = "<name>Xpi", X the initial of the first selected type).
 	MixedCasePkg bool
 	// CfgDir, when set, is the directory (below the workspace) the configuration file is written to instead of "cfg".
 	CfgDir string
@@ -113,7 +113,13 @@ func (w *Workspace) Prepare(c *Case) {
 		c.UseOverride = true
 	}
 	if c.MixedCasePkg && c.File.Dep == nil {
-		c.File.GoPackage = c.Name + "Api"
+		// the capital is the initial of the first selected type (whoever strips the package prefix from a
+		// qualified type name by character set rather than by prefix eats into the type name)
+		suffix := "Api"
+		if len(c.Cfg.Types) > 0 && c.Cfg.Types[0] != "" && c.Cfg.Types[0][0] >= 'A' && c.Cfg.Types[0][0] <= 'Z' {
+			suffix = c.Cfg.Types[0][:1] + "pi"
+		}
+		c.File.GoPackage = c.Name + suffix
 	}
 	if c.Separate && c.CleanedPkgName && c.File.Dep == nil {
 		c.File.GoPackage = "vw/cases/" + c.Name + "/go-" + c.Name + ".v1"
